@@ -94,6 +94,8 @@ def check(rep, tier, seed):
         classes[k] = classes.get(k, 0) + 1
         if a.startswith("panic"):
             bad.append((C.codec_line(c), a, "encoding panicked"))
+        elif a.startswith("entry-points-differ"):
+            bad.append((C.codec_line(c), a, "the entry points (Vec<u8>, Bytes, size calculator) disagree on an encoding issued among failing encodings"))
         elif a.startswith("err ") and len(a.split(" ; ")[0].split(" ")) > 2:
             bad.append((C.codec_line(c), a, "a failed encoding handed back bytes"))
     # transient constructors through the real derive macro (static route): every constructor of every catalogue enum
@@ -120,6 +122,12 @@ def check(rep, tier, seed):
         if not tr and not enc_part.startswith("ok ") and enc_part != "err UnsupportedCharacter":
             bad.append((l, a, "a constructor that is not transient is refused"))
     rep.coverage["transient_constructor_cases_static"] = len(tcs)
+    # the stream is a HISTORY per process (failing encodings interleaved with succeeding ones): bytes that differ from
+    # the reference encoding of the value are bytes handed over from another call
+    for c, a, m in zip(cases, impl, mod):
+        if a.startswith("ok ") and m.startswith("ok ") and a.split(" ")[1] != m.split(" ")[1]:
+            bad.append((C.codec_line(c), a.split(" ; ")[0][:200] + "  (reference: " + m.split(" ")[1][:120] + ")",
+                        "an encoding issued after failed encodings is not the encoding of its value"))
     C.proof_coverage(rep, ob, "C17")
     lines = [C.codec_line(c) for c in cases]
     rep.coverage.update({
